@@ -16,7 +16,7 @@ func init() {
 		id: "C10",
 		li: levelInfo{
 			Level:       "other",
-			Explanation: "Static necessary conditions of the RESP codec's round trip. R1: the set of RespType constants, the decoder's two dispatches and the encoder's dispatch are the same set. R2 (escape analysis): a slice aliasing the reader's internal buffer (the result of ReadSlice) flows only into byte comparisons, len, parsing and copies - never into a decoded value, a return of a text/bulk decoder, or any store; otherwise a later refill, which happens or not depending on how the bytes were chunked, rewrites an already decoded value. R3: bulk framing agreement - the decoder reads n+2 bytes, tests offsets n and n+1 against CR and LF and returns [:n]; the encoder writes length, CR LF, bytes, CR LF. R4: null != empty by construction - the nil constant is returned exactly on the -1 paths, every other path returns an allocation that cannot be nil (read size provably >= 1, make for arrays); the encoder emits -1 exactly under == nil. R5: both length limits are tested before the allocation/read they protect (zone witnesses). R6: the buffered reader's 'buffer full' branch is taken only when the whole buffer is occupied by one unterminated line. Round-trip equality and chunk independence for all values are value-level and not decided. R7: the encoder's integer text comes from strconv / the itoa table, or from digit arithmetic that never negates a signed value. R8: the decoder's nesting counter is balanced on every path (shared with C11.R4) and inline commands are split on the space byte only. R2 also: an in-place append into a decoded text requires capacity-limited slab slices. R9: null and empty stay apart - no RESP text is replaced by a nil-ness changing copy of another text. R10: a hand-written n = n*10 + digit loop runs only over slices whose length has a zone witness small enough for the accumulator (18 digits for int64). R11: the slab cursor only advances or takes a fresh chunk. R12: the line reader's line end is start-of-window + index + 1. R8 also requires the depth guard to accept exactly the named depth. R12 also: the returned line starts at the read position; slices made by a helper of the reader are evaluated with its parameters bound to the arguments. R5 also: the length is not provably below the documented limit at the payload read / allocation (lengths up to the limit are accepted); a length read through a range-checking helper is followed.",
+			Explanation: "Static necessary conditions of the RESP codec's round trip. R1: the set of RespType constants, the decoder's two dispatches and the encoder's dispatch are the same set. R2 (escape analysis): a slice aliasing the reader's internal buffer (the result of ReadSlice) flows only into byte comparisons, len, parsing and copies - never into a decoded value, a return of a text/bulk decoder, or any store; otherwise a later refill, which happens or not depending on how the bytes were chunked, rewrites an already decoded value. R3: bulk framing agreement - the decoder reads n+2 bytes, tests offsets n and n+1 against CR and LF and returns [:n]; the encoder writes length, CR LF, bytes, CR LF. R4: null != empty by construction - the nil constant is returned exactly on the -1 paths, every other path returns an allocation that cannot be nil (read size provably >= 1, make for arrays); the encoder emits -1 exactly under == nil. R5: both length limits are tested before the allocation/read they protect (zone witnesses). R6: the buffered reader's 'buffer full' branch is taken only when the whole buffer is occupied by one unterminated line. Round-trip equality and chunk independence for all values are value-level and not decided. R7: the encoder's integer text comes from strconv / the itoa table, or from digit arithmetic that never negates a signed value. R8: the decoder's nesting counter is balanced on every path (shared with C11.R4) and inline commands are split on the space byte only. R2 also: an in-place append into a decoded text requires capacity-limited slab slices. R9: null and empty stay apart - no RESP text is replaced by a nil-ness changing copy of another text. R10: a hand-written n = n*10 + digit loop runs only over slices whose length has a zone witness small enough for the accumulator (18 digits for int64). R11: the slab cursor only advances or takes a fresh chunk. R12: the line reader's line end is start-of-window + index + 1. R8 also requires the depth guard to accept exactly the named depth. R12 also: the returned line starts at the read position; slices made by a helper of the reader are evaluated with its parameters bound to the arguments. R5 also: the length is not provably below the documented limit at the payload read / allocation (lengths up to the limit are accepted); a length read through a range-checking helper is followed. R3 also: the text decoder returns the line without exactly its last two bytes.",
 			TrustedBase: []string{"go/ssa", "samlint ebounds.go + zone.go"},
 		},
 		run: checkC10,
@@ -374,6 +374,40 @@ func checkC10(c *Ctx) {
 					c.Check(returnedValues(ret)[0] == ssa.Value(mk), "R4", "array success returns the allocated slice", ret.Pos(), "non-nil even when empty", "the array decoder's success path does not return the allocated slice (an empty array could decode as null)")
 				}
 			})
+		}
+	}
+	// text lines (simple strings, errors, inline commands): the decoder returns the line without its last two bytes -
+	// not "without trailing CR/LF bytes", which also eats a payload that ends in CR
+	if fn := p.Func(redisPkg, "(*decoder).decodeTextBytes"); fn == nil {
+		c.Unresolved("R3", "decodeTextBytes")
+	} else {
+		nret := 0
+		eachInstr(fn, func(_ *ssa.BasicBlock, _ int, in ssa.Instruction) {
+			r, ok := in.(*ssa.Return)
+			if !ok {
+				return
+			}
+			vals := returnedValues(r)
+			if len(vals) != 2 || !isNilConst(vals[1]) {
+				return
+			}
+			nret++
+			okCut := false
+			if sl, isSl := vals[0].(*ssa.Slice); isSl && sl.Low == nil && sl.High != nil {
+				// High == len(X) - 2
+				hv := stripConv(sl.High)
+				if bo, isBo := hv.(*ssa.BinOp); isBo && bo.Op == token.SUB {
+					if k, isC := constInt(bo.Y); isC && k == 2 {
+						if lc, isCall := bo.X.(*ssa.Call); isCall && isBuiltin(lc, "len") && lc.Call.Args[0] == sl.X {
+							okCut = true
+						}
+					}
+				}
+			}
+			c.Check(okCut, "R3", fmt.Sprintf("text decoder return#%d is the line without its last two bytes", nret), r.Pos(), "b[:len(b)-2]", "the text decoder does not return exactly the line minus its two terminator bytes (e.g. it trims every trailing CR/LF byte): a simple string, error or inline command whose payload ends in CR is decoded without it, so decoding what the encoder wrote is not the identity and the inline and the array form of one command decode differently")
+		})
+		if nret == 0 {
+			c.Fail("R3", "text decoder returns a line", fn.Pos(), "decodeTextBytes has no successful return")
 		}
 	}
 	// encoder side
